@@ -55,6 +55,12 @@ def rule_dict_tables(ctx: Ctx, rule: str = "writer-reader-tables") -> None:
     val = prog.func("serializer.validate_contract_dict")
     chk = prog.func("serializer._check_clause")
     # --- machine form
+    if ctx.extra.get("machine_roundtrip_decided"):
+        # the symbolic round trip (rule machine-roundtrip, run before this one) went through writer, validator and
+        # reader: the agreement of their key tables, which this block reads off the syntax, is implied
+        ctx.ok(rule, tm.key, "machine form: writer / validator / reader key tables agree (decided by the symbolic round trip)", nontrivial=False)
+        _string_form_tables(ctx, rule, prog, td, fs, val)
+        return
     fl = Flow(tm.node)
     rets = [n for n in ast.walk(tm.node) if isinstance(n, ast.Return) and isinstance(n.value, ast.Dict)]
     if len(rets) != 1:
@@ -109,6 +115,12 @@ def rule_dict_tables(ctx: Ctx, rule: str = "writer-reader-tables") -> None:
                     ctx.ok(rule, fd.key, construct)
                 else:
                     ctx.violation(rule, fd.key, construct, "built from keys %s" % sorted(keys), where=fd.where)
+    _string_form_tables(ctx, rule, prog, td, fs, val)
+
+
+def _string_form_tables(ctx: Ctx, rule: str, prog: Program, td: FuncInfo, fs: FuncInfo, val: FuncInfo) -> None:
+    from .rules_exc import _required_keys
+
     # --- string form
     written = {k: v for b, k, v in _subscript_store_keys(td.node)}
     params = set(fs.params) - {"simplify"}
@@ -691,3 +703,76 @@ def rule_printer_reading(ctx: Ctx, rule: str = "printer-meaning") -> None:
             return None
 
         _run(ctx, rule, fi.key, "printer meaning: " + label, thunk)
+
+
+def rule_machine_roundtrip(ctx: Ctx, rule: str = "machine-roundtrip") -> None:
+    """C10, machine representation, decided by the kernel interpreter on symbolic data: a contract record with
+    symbolic coefficients and constants is written by to_machine_dict, the dictionary passes validate_contract_dict,
+    and from_dict hands the constructor the very same interface lists, terms (coefficient by coefficient) and
+    constants.  Whatever way the three functions are written (helpers, tables, comprehensions or loops)."""
+    from .rules_kernels import _eq, coefs
+    from .termalg import NONE, DictV, Key, ListV, Raised, Rec, TermAlg, sym
+    from .termalg import Undecidable as _Und
+
+    prog = ctx.prog
+    tm = prog.func(PIC + "to_machine_dict")
+    fd = prog.func(PIC + "from_dict")
+    val = prog.func("serializer.validate_contract_dict")
+    construct = "to_machine_dict -> validate_contract_dict -> from_dict gives back the interface, every coefficient and every constant"
+    x, y, z = Key("x"), Key("y"), Key("z")
+
+    def term(prefix, keys):
+        return Rec("PolyhedralTerm", {"variables": DictV({k: sym("%s_%s" % (prefix, k.name)) for k in keys}), "constant": sym(prefix + "_c")})
+
+    A = [term("a", [x])]
+    G = [term("g", [x, y]), term("h", [y, z])]
+    contract = Rec("PolyhedralIoContract", {"a": Rec("PolyhedralTermList", {"terms": ListV(A)}), "g": Rec("PolyhedralTermList", {"terms": ListV(G)}), "inputvars": ListV([x]), "outputvars": ListV([y, z])})
+    seen: Dict[str, Any] = {}
+
+    def ctor(ta, pos, kw):
+        names = ["self", "assumptions", "guarantees", "input_vars", "output_vars", "simplify"]
+        got = dict(kw)
+        for i, v in enumerate(pos):
+            if i < len(names):
+                got.setdefault(names[i], v)
+        seen.update(got)
+        return NONE
+
+    init = prog.resolve_method("PolyhedralIoContract", "__init__")
+    stubs = {init.key: ctor} if init is not None else {}
+    try:
+        ta = TermAlg(prog, stubs=stubs)
+        d = ta.call(tm, [], {}, self_val=contract)
+        TermAlg(prog).call(val, [d, ("str", "c"), True])
+        TermAlg(prog, stubs=stubs).call(fd, [d])
+    except Raised as r:
+        ctx.violation(rule, tm.key, construct, "the round trip of a well-formed contract raises %s" % r.cls, where=fd.where)
+        return
+    except (AnalysisError, _Und) as ex:
+        # not followed: the reading of the key tables (rule writer-reader-tables) decides instead
+        ctx.extra["machine_roundtrip_not_followed"] = str(ex)[:160]
+        return
+    problems = []
+    for nm, want in (("input_vars", ["x"]), ("output_vars", ["y", "z"])):
+        v = seen.get(nm)
+        got = [k.name if isinstance(k, Key) else None for k in v.items] if isinstance(v, ListV) else None
+        if got != want:
+            problems.append("%s %s come back as %s" % (nm, want, got))
+    for nm, want in (("assumptions", A), ("guarantees", G)):
+        v = seen.get(nm)
+        terms = v.f["terms"].items if isinstance(v, Rec) and isinstance(v.f.get("terms"), ListV) else None
+        if terms is None or len(terms) != len(want):
+            problems.append("%s: %d term(s) come back as %s" % (nm, len(want), None if terms is None else len(terms)))
+            continue
+        for t0, t1 in zip(want, terms):
+            c0, c1 = coefs(t0), coefs(t1)
+            for k in sorted(set(c0) | set(c1)):
+                if k not in c0 or k not in c1 or not _eq(c0[k], c1[k]):
+                    problems.append("%s: coefficient of %s is %s, was %s" % (nm, k, c1[k].show() if k in c1 else "absent", c0[k].show() if k in c0 else "absent"))
+            if not _eq(t0.f["constant"], t1.f["constant"]):
+                problems.append("%s: constant %s comes back as %s" % (nm, t0.f["constant"].show(), t1.f["constant"].show()))
+    if problems:
+        ctx.violation(rule, tm.key, construct, "; ".join(problems[:4]), where=tm.where)
+    else:
+        ctx.ok(rule, tm.key, construct)
+        ctx.extra["machine_roundtrip_decided"] = True
